@@ -1,6 +1,11 @@
 package rules
 
 func init() {
+	property(&Property{ID: "C08",
+		Rules: []string{"O5.clone", "O1.update", "O2.trim", "O1.history"},
+		Explanation: "tbd",
+		Assumptions: []string{"tbd"},
+	})
 	property(&Property{ID: "C01",
 		Rules: []string{"K.compare", "O2.lww", "O2.rga", "A1", "K.id"},
 		Explanation: "tbd",
